@@ -160,6 +160,7 @@ package core
 //@ func (*OutboundBreaker).Do
 //@   ensures[C20.ob_runs_iff_admitted]   result0 && f != nil ==> calls(f) == old(calls(f)) + 1
 //@   ensures[C20.ob_not_admitted_no_run] !result0 ==> calls(f) == old(calls(f))
+//@   ensures[C20.ob_one_critical_section] acquired(b.Mutex) == old(acquired(b.Mutex)) + 1 && unheld(b.Mutex) == old(unheld(b.Mutex))
 
 //@ func (*ComboBreaker).Do
 //@   ensures[C20.combo_runs_at_most_once] calls(f) <= old(calls(f)) + 1
@@ -174,6 +175,7 @@ package core
 //@   ensures[C20.submit_runs_at_most_once] calls(f) <= old(calls(f)) + 1
 //@   ensures[C20.submit_overflow_no_run] old(t.pendingLimit < t.pending) && !old(t.disabled) ==> calls(f) == old(calls(f)) && result != nil
 //@   loop 1: invariant[C20.submit_loop] t.pending == old(t.pending) + 1 && calls(f) == old(calls(f))
+//@   ensures[C20.submit_two_critical_sections] acquired(t.Mutex) <= old(acquired(t.Mutex)) + 2
 
 // Capacity gate: the permission capOK is granted only by AtCapacity() == false.
 //@ ghost capOK bool gate
